@@ -2,9 +2,9 @@
   Model of `crates/path/src/path_buffer.rs` (C14): several paths stored contiguously, one
   descriptor per path, endpoint ids rebased to the path's own start (`adjust_id`).
 
-  The model mirrors the code as it is: `BuilderWithAttributes::build` records
-  `num_attributes: 0` in the descriptor (path_buffer.rs, `build`), exactly like the plain
-  builder — so an entry written with attributes is read back as if it had none.
+  `BuilderWithAttributes::build` records the builder's attribute count in the descriptor.
+  (Former defect, repaired by /repo commit 61889d0a: it used to record `num_attributes: 0`, so an
+  entry written with attributes was read back as if it had none.)
   Mathlib-free.
 -/
 import LyonVerif.Model.Path.Store
@@ -56,8 +56,7 @@ def PathBuffer.addPlain {A : Type} (b : PathBuffer S) (prog : List (Call (Pt S) 
                               verbs := (verbsStart, r.1.verbs.length), numAttributes := 0 }] },
      ids, b.paths.length)
 
-/-- `buffer.builder().with_attributes(n)` (or `BuilderWithAttributes::new`), a program, `.build()`.
-The descriptor's `num_attributes` is `0`, as in the code. -/
+/-- `buffer.builder().with_attributes(n)` (or `BuilderWithAttributes::new`), a program, `.build()`. -/
 def PathBuffer.addWithAttributes (b : PathBuffer S) (n : Nat) (prog : List (Call (Pt S) (List S))) :
     Option (PathBuffer S × List Nat × Nat) :=
   let start : BuilderWithAttributes S :=
@@ -70,7 +69,7 @@ def PathBuffer.addWithAttributes (b : PathBuffer S) (n : Nat) (prog : List (Call
       ({ points := r.1.builder.points, verbs := r.1.builder.verbs,
          paths := b.paths ++ [{ points := (pointsStart, r.1.builder.points.length),
                                 verbs := (verbsStart, r.1.builder.verbs.length),
-                                numAttributes := 0 }] },
+                                numAttributes := r.1.numAttributes }] },
        ids, b.paths.length)
 
 end
